@@ -51,7 +51,7 @@ class StateActionTable(StateTable):
     def from_dict(cls, action_values : Mapping[State, Mapping[Action, float]], default_value):
         state_list = domaintuple(action_values.keys())
         action_list = sum([list(action_dict.keys()) for action_dict in action_values.values()], [])
-        action_list = domaintuple(set(action_list))
+        action_list = domaintuple(dict.fromkeys(action_list)) # first-occurrence order (a set's order depends on hash randomisation)
         data = np.zeros((len(state_list), len(action_list)))
         data[:] = default_value
         for si, s in enumerate(state_list):
